@@ -11,6 +11,7 @@ verus! {
 //@enum SigningHash @ src/ecdsa/mod.rs clone copy partialeq eq
 //@include shims/asref.rs
 //@include shims/digest.rs
+//@include shims/codecs.rs
 //@include shims/k256.rs
 //@include spec/bip32.rs
 pub const HARDENED_KEY_OFFSET: u32 = 0x80000000;
